@@ -335,7 +335,7 @@ func buildInsertEventsParamsDeletedEventKeys(seed uint32, event *mocrelay.Event)
 	}
 
 	for _, tag := range event.Tags {
-		if len(tag) != 2 {
+		if len(tag) < 2 {
 			continue
 		}
 		if tag[0] != "a" {
@@ -389,7 +389,7 @@ func buildInsertEventsParamsDeletedEventIDs(seed uint32, event *mocrelay.Event) 
 	}
 
 	for _, tag := range event.Tags {
-		if len(tag) != 2 {
+		if len(tag) < 2 {
 			continue
 		}
 		if tag[0] != "e" {
